@@ -134,7 +134,6 @@ def jOut : Out → Json
   | .mixed => Json.mkObj [("error", "TransactionError"), ("why", "mixed")]
   | .dbRequired => Json.mkObj [("error", "TransactionError"), ("why", "db_session required")]
   | .typeError => Json.mkObj [("error", "TypeError")]
-  | .ranSql => Json.mkObj [("ranSql", .bool true)]
   | .live => Json.mkObj [("live", .bool true)]
 
 def handle (j : Json) : Except String Json := do
